@@ -201,7 +201,7 @@ Definition protect_rtcp_fun (ss : session) (mki_index C : Z) (pkt : bytes) : ses
 
 (* ---- receiver ---- *)
 Definition rtcp_rx_conf (st : stream) : bool := (s_rtcp_serv st =? 1) || (s_rtcp_serv st =? 3).
-Definition rtcp_tag0 (st : stream) : Z := match s_keys st with k0 :: _ => ak_tag (k_rtcp_a k0) | [] => 0 end.
+Definition rtcp_tl0 (st : stream) : Z := match s_keys st with k0 :: _ => ak_tag (k_rtcp_a k0) | [] => 0 end.
 
 Definition receiver_key_st (st : stream) (pkt : bytes) (len tl0 : Z) : (Z * skeys) + Z :=
   if negb (s_use_mki st) then
@@ -236,7 +236,7 @@ Definition unprotect_rtcp_pre_fun (ss : session) (C : Z) (pkt : bytes) : cpre + 
   match list_get (ss_list ss) ssrc with
   | None => inr st_no_ctx
   | Some st =>
-    match receiver_key_st st pkt len (rtcp_tag0 st) with
+    match receiver_key_st st pkt len (rtcp_tl0 st) with
     | inr e => inr e
     | inl (ki, k) =>
       let tag_len := ak_tag (k_rtcp_a k) in
